@@ -30,11 +30,12 @@ EDGE_TEXTS = {
                 "p(1..9223372036854775807).", "p(X) :- X = 1/0.", "p(X) :- X = 1\\0.", "p(" + "(" * 200 + "1" + ")" * 200 + ").", "p(" + "-" * 12 + "1).",
                 "p(" + ",".join(["1"] * 400) + ").", "p" * 3000 + ".", " ".join(f"p{i}(X) :- q{i}(X)." for i in range(300)), "p(" + "1+" * 12 + "1).",
                 "p :- " + ", ".join(["q"] * 500) + ".", "V18446744073709551615(1).", "p(V18446744073709551615) :- q(V18446744073709551615).",
-                "p(V1, V2, V) :- q(V1, V2, V).", "p(X) :- q(X), not not not p(X).", "{p(X)}.", "{p(X)} :- .", ":- .", "p(a\x00b).", "p(é)."],
+                "p(V1, V2, V) :- q(V1, V2, V).", "a. a__s. p(a).", "a. a__s. p(ha).", "a. a__s. a__s__s. p(a, a__s).", "ha. ha__s. p(ha). a :- p(a).", "p(X) :- q(X), not not not p(X).", "{p(X)}.", "{p(X)} :- .", ":- .", "p(a\x00b).", "p(é)."],
     "theory": ["", "% c", "forall X p(X).", "p(9223372036854775808).", "p(-9223372036854775809).", "forall X$i (X$i = 9223372036854775807 + 1).",
                "p(" + "(" * 200 + "1" + ")" * 200 + ").", "not " * 400 + "p.", "(" * 300 + "p" + ")" * 300 + ".", "p and " * 400 + "p.",
                "forall " + " ".join(f"X{i}" for i in range(300)) + " p(X0).", "exists X$i " * 14 + "p(X$i).", "p <-> " * 200 + "p.", "1 < " * 300 + "2.",
-               "forall X (p(X) <-> exists Y$i (Y$i = X and Y$i > 18446744073709551616)).", "p(c$i, c$g, c$s).", "forall V V1 V2 (p(V, V1, V2))."],
+               "forall X (p(X) <-> exists Y$i (Y$i = X and Y$i > 18446744073709551616)).", "exists X$i Y$s (X$i = Z and Y$s = Z and p(X$i, Y$s)).",
+               "exists S$s N$i (S$s = Y and N$i = Y).", "exists X$s Y$g Z$i (X$s = Y$g and Z$i = Y$g and p(Z$i)).", "p(c$i, c$g, c$s).", "forall V V1 V2 (p(V, V1, V2))."],
     "specification": ["", "spec: p.", "definition: forall X (d(X) <-> q(X)).\nspec: forall X (p(X) <-> d(X)).", "lemma: p.", "inductive-lemma: forall N$i (N$i >= 0 -> p(N$i)).",
                       "assumption: forall X (q(X) -> X > 99999999999999999999).", "spec[" + "a" * 2000 + "]: p.", "spec(forward)(backward): p.",
                       "definition: forall X (p(X) <-> q(X)).", "definition: forall X Y (d(X, X) <-> q(Y)).", "spec: forall X (p(X) <-> q(X)). spec: #false."],
@@ -165,6 +166,10 @@ def seeds(ctx):
         out.append(("program", c["text"]))
     for c in V.tlc_generate(ctx, "folsyntax", 120 if q else 1200, 2):
         out.append(({"theory": "theory", "specification": "specification", "user-guide": "user-guide"}[c["as"]], c["text"]))
+    for c in V.tlc_generate(ctx, "redex", 56 if q else 560, 2):
+        out.append(("theory", c["f"] + "."))
+    for c in V.tlc_generate(ctx, "ident", 20 if q else 200, 1):
+        out.append(("program", c.get("left") or c["right"]))
     for c in V.tlc_generate(ctx, "ext", 12 if q else 100, 1):
         out.append(("program", c["right"]))
         out.append(("user-guide", c["ug"]))
